@@ -70,8 +70,20 @@ def failing_dump(ctx, obj, fmt, case, workdir, good_bytes, preexisting, main_var
     for name in os.listdir(workdir):
         os.unlink(os.path.join(workdir, name))
     if preexisting:
-        with open(dest, "wb") as f:
+        # the good copy is a plain file, or shared with an older compose: reached through a symbolic link / a second hard link
+        kind = case.get("dest_kind")
+        if kind is None:
+            ctx._c18_kinds = getattr(ctx, "_c18_kinds", 0) + 1
+            kind = ("regular", "symlink", "regular", "hardlink")[ctx._c18_kinds % 4]
+            case["dest_kind"] = kind
+        ctx.count("dest-" + kind)
+        first = dest if kind == "regular" else os.path.join(workdir, "older-compose-copy")
+        with open(first, "wb") as f:
             f.write(good_bytes)
+        if kind == "symlink":
+            os.symlink("older-compose-copy", dest)
+        elif kind == "hardlink":
+            os.link(first, dest)
     before_list = listing(workdir)
     audit = ctx.audit
     if audit is not None:
@@ -96,10 +108,16 @@ def failing_dump(ctx, obj, fmt, case, workdir, good_bytes, preexisting, main_var
                 now = f.read()
             if now != good_bytes:
                 probs.append("the good copy (%d bytes) now has %d bytes" % (len(good_bytes), len(now)))
+            if case.get("dest_kind") in ("symlink", "hardlink"):
+                with open(os.path.join(workdir, "older-compose-copy"), "rb") as f:
+                    if f.read() != good_bytes:
+                        probs.append("the file the destination is linked to was changed")
+                if case["dest_kind"] == "symlink" and not os.path.islink(dest):
+                    probs.append("the destination is no longer the link it was")
         except OSError as e:
             probs.append("the good copy is gone: %s" % e)
-    elif os.path.exists(dest):
-        probs.append("a file of %d bytes was created although none existed" % os.path.getsize(dest))
+    elif os.path.lexists(dest):
+        probs.append("a file of %d bytes was created although none existed" % os.lstat(dest).st_size)
     ctx.monitor("destination-bytes-unchanged", fired=bool(probs))
     if probs:
         ctx.violation("destination-bytes-unchanged", "after a dump that raised, the destination is byte for byte what it was (and absent if it was absent)",
